@@ -104,7 +104,15 @@ def solve_text(text, want_model, t_z3=10, t_cvc5=20, both=False, workdir=None):
         cmds = [('z3', [Z3NEW, '-T:%d' % t_z3, path]),
                 ('z3-4.8', [Z3OLD, '-T:%d' % t_z3, path])]
         if not any(u in text for u in CVC5_UNSUPPORTED):
-            cmds.append(('cvc5', [CVC5, '--strings-exp', '--tlimit=%d' % (t_cvc5 * 1000), path]))
+            cpath = path
+            if 'seq.nth_' in text:
+                # z3's simplifier splits seq.nth into an in-bounds / out-of-bounds pair of internal
+                # functions, always as ite(in-bounds, nth_i, nth_u): the standard total seq.nth
+                cpath = path[:-5] + '_c.smt2'
+                with open(cpath, 'w') as f:
+                    f.write(text.replace('seq.nth_i', 'seq.nth').replace('seq.nth_u', 'seq.nth'))
+                    f.write('\n')
+            cmds.append(('cvc5', [CVC5, '--strings-exp', '--tlimit=%d' % (t_cvc5 * 1000), cpath]))
         procs, t0 = _race(cmds, max(t_z3, t_cvc5))
         results = {}
         deadline = t0 + max(t_z3, t_cvc5) + 5
